@@ -158,3 +158,13 @@ func addr(t *rapid.T, n int) []byte {
 	}
 	return BytesN(t, n, "addr")
 }
+
+// LongPrefixes marks some of the short variable-length values of a record to be written with the
+// three-byte length prefix (collector-side checks only: a collector must accept both forms).
+func LongPrefixes(t *rapid.T, fields []ref.Field, rec []ref.Value) {
+	for i, f := range fields {
+		if f.Len == ref.VarLen && len(rec[i].B) < 255 && rapid.IntRange(0, 5).Draw(t, "longprefix") == 0 {
+			rec[i].Long = true
+		}
+	}
+}
